@@ -81,13 +81,16 @@ L['C07'] = dict(modules=['Schc.Properties.C07'], level='proof', technique='Lean 
               T('C07_packet', 'full', 'every parser configuration: fields ++ payload = input buffer, raw = input'),
               T('C07_nocompression_reproduces', 'full', 'a no-compression rule reproduces any parsed packet')],
     level_text='Proved over the model for every buffer any parser accepts (well-formed or not): fixed layouts by a generic contiguity lemma against the tables regenerated from the source, CoAP by the cursor invariant of the option loop (incl. the payload marker and truncated tokens), SCTP by the chunk/parameter walk invariants and the post-check that a chunk type\'s fields cover the chunk value, chaining by composition.')
-L['C08'] = dict(modules=['Schc.Properties.C08'], level='proof', technique='Lean 4 `decide` on layouts regenerated from the parsers\' AST vs RFC tables; structured-generator correspondence for variable parts',
+L['C08'] = dict(modules=['Schc.Properties.C08'], level='proof', technique='Lean 4: `decide` on layouts regenerated from the parsers\' AST vs RFC tables; parse-of-encode theorem for the CoAP option walk; structured-generator correspondence for SCTP walks',
     theorems=[T('C08_ipv4_layout', 'full', 'IPv4 field boundaries extracted from the source = RFC 791'), T('C08_ipv6_layout', 'full', '= RFC 8200'),
               T('C08_udp_layout', 'full', '= RFC 768'), T('C08_coap_fixed_layout', 'full', 'first 32 bits = RFC 7252 §3'),
               T('C08_sctp_layouts', 'full', 'common header, chunk header, DATA / INIT / INIT ACK / SACK / SHUTDOWN fixed parts, parameter header = RFC 9260'),
               T('C08_chaining', 'full', 'next-protocol tables: 17/132 after IP, 5683/132 after UDP; explicit stacks'),
-              T('C08_ipv6_fields', 'full', 'IPv6 parser returns exactly the RFC field list'), T('C08_ipv4_fields', 'full', 'IPv4 …'), T('C08_udp_fields', 'full', 'UDP …')],
-    level_text='PARTIAL as a proof: the fixed field boundaries of all five protocols and the chaining tables are machine-checked against tables written from the RFCs, on tables re-extracted from the source on every run (a moved boundary breaks a `decide`). The variable parts — CoAP option delta/length/extension/value fields and occurrence counters, SCTP per-chunk-type fields, parameters, 32-bit padding, agreement of predictive and explicit stacks — are compared on every run with field lists produced by independent RFC encoders (every delta/length class incl. 12/13, 268/269, token 0..8, every chunk type with optional parts); no parse∘encode theorem is claimed for them.')
+              T('C08_ipv6_fields', 'full', 'IPv6 parser returns exactly the RFC field list'), T('C08_ipv4_fields', 'full', 'IPv4 …'), T('C08_udp_fields', 'full', 'UDP …'),
+              T('C08_coap_message', 'full', 'parse of ANY RFC 7252-encoded message (token 0..15 bytes as announced, any options, optional marker + payload) = fixed fields, token, per-option fields in wire order, marker; exact header length'),
+              T('C08_coap_option', 'full', 'one option: slices cut = RFC fields, all delta/length classes'),
+              T('C08_coap_positions', 'full', 'k-th field with a given id carries position k, for any accepted input')],
+    level_text='Fixed field boundaries of all five protocols and the chaining tables are machine-checked against tables written from the RFCs, on tables re-extracted from the source on every run (a moved boundary breaks a `decide`). The CoAP option walk is proved against RFC 7252 §3.1 written as an encoder (Spec.wireOption): parse of the encoding of any option list gives the RFC field list, positions and header length. PARTIAL for SCTP: per-chunk-type fields, parameters, 32-bit padding and the agreement of predictive and explicit stacks are compared on every run with field lists produced by independent RFC 9260 encoders (every chunk type with optional parts); no parse∘encode theorem is claimed for the SCTP walks (C07 proves they tile, C14 that they terminate).')
 L['C14'] = dict(modules=['Schc.Properties.C14'], level='proof', technique='Lean 4 totality theorems with fuel (progress lemmas for every walk) + generated registry tables',
     theorems=[T('C14_total', 'full', 'every parser configuration, every bit string: a descriptor or ParserError — no hang, no foreign exception'),
               T('C14_header', 'full', 'each header parser, with/without prediction, CoAP in both option modes'),
